@@ -19,12 +19,13 @@ PROBES = {
     "C07": ["strategy_update", "asymmetric_metric", "order_sensitive_scorer", "with_X",
             "return_data", "clock_backwards_seen", "initial_window", "gapped_fh",
             "no_leak_checked", "honest_recomputation_checked", "prefitted_forecaster",
-            "missing_values_in_training_window",
+            "missing_values_in_training_window", "fit_params_checked",
             "x_consuming_forecaster"],
     "C08": ["tie_in_best_score", "greater_is_better", "nested_param_names", "multiplexer_grid",
             "randomized_search", "refit_false", "interleave_schedule", "pre_dispatch_window",
             "lockstep_history_checked", "sibling_schedule_checked", "list_of_grids",
-            "random_state_instance", "tie_not_involving_first", "second_fit_other_grid"],
+            "random_state_instance", "tie_not_involving_first", "second_fit_other_grid",
+            "fit_horizon_remembered", "prediction_intervals_checked"],
 }
 FAULT_KINDS = {
     "C07": ["clock_jump_fwd", "clock_jump_back"],
@@ -142,6 +143,7 @@ def generate(prop, rng, tier):
                                   "neg_mae", "skill"]),
             "with_X": with_X, "return_data": rng.random() < 0.4,
             "prefit": rng.random() < 0.25,
+            "fit_params": rng.random() < 0.3,
             # missing values early in the series (NaiveForecaster(last) accepts them)
             "nans": spec == {"kind": "naive", "strategy": "last", "sp": 1, "window_length": None}
             or (spec["kind"] == "naive" and spec.get("strategy") == "last" and spec.get("sp", 1) == 1
@@ -151,7 +153,7 @@ def generate(prop, rng, tier):
         }
     # ---- C08
     n = rng.randint(18, 36 if not big else 70)
-    base_kind = rng.choice(["naive", "naive", "ttf", "mux"])
+    base_kind = rng.choice(["naive", "naive", "ttf", "mux", "theta"])
     if base_kind == "naive":
         base = {"kind": "naive", "strategy": "last", "sp": 1, "window_length": None}
         grid = {"strategy": rng.sample(["last", "mean", "drift"], rng.randint(2, 3))}
@@ -169,6 +171,9 @@ def generate(prop, rng, tier):
             # several grids with different keys
             grid = [{"strategy": ["mean"], "window_length": rng.sample([3, 4, 8], 2)},
                     {"strategy": rng.sample(["last", "drift"], rng.randint(1, 2))}]
+    elif base_kind == "theta":
+        base = {"kind": "theta", "sp": 1, "deseasonalize": True}
+        grid = {"sp": rng.sample([1, 2, 4], 2), "deseasonalize": [True, False]}
     elif base_kind == "ttf":
         base = {"kind": "ttf", "transformers": [{"kind": "deseason", "sp": 2, "model": "additive"}],
                 "forecaster": {"kind": "naive", "strategy": "last", "sp": 1, "window_length": None}}
@@ -203,6 +208,9 @@ def generate(prop, rng, tier):
         "pre_dispatch": rng.choice([None, 1, 2, "2*n_jobs", "n_jobs"]),
         "refit": rng.random() < 0.8,
         "second_fit": rng.random() < 0.3,
+        # horizon given to fit (None, or one that differs from the splitter's)
+        "fit_fh": rng.choice([None, None, [1, 2, 5], [2, 3, 4, 6]]),
+        "alpha": rng.choice([0.05, 0.2, 0.5]),
         "strategy": rng.choice(["refit", "refit", "update"]),
         "sched": {"mode": rng.choice(["fifo", "ooo", "interleave", "interleave"]),
                   "seed": rng.randint(0, 10 ** 6), "p": rng.choice([0.01, 0.05, 0.1, 0.3])},
@@ -284,8 +292,9 @@ def execute_c07(scen):
     sc = sched.Scheduler("fifo", 0)
     try:
         with sched.scenario_schedule(sc), patched_evaluate_clock(clock):
+            extra = {"fit_params": {"spy_marker": 7}} if scen.get("fit_params") else {}
             table = evaluate(spy, cv, y, X, strategy=scen["strategy"], scoring=metric,
-                             return_data=scen["return_data"])
+                             return_data=scen["return_data"], **extra)
     except Exception as e:  # noqa
         v("evaluate_raised", "evaluate raised %s: %s on a valid configuration" % (
             type(e).__name__, str(e)[:200]), exc=type(e).__name__, forecaster=scen["spec"]["kind"])
@@ -346,6 +355,13 @@ def execute_c07(scen):
                   i, c_fit["m"], info.get("first"), info.get("last"), info.get("n"),
                   exp_info["first"], exp_info["last"], exp_info["n"]), fold="first" if i == 0 else "later")
             return res
+        # the caller's fit parameters reach every fit, not only the first
+        if scen.get("fit_params") and c_fit["m"] == "fit":
+            res.probe("fit_params_checked")
+            if c_fit.get("fit_params") != {"spy_marker": 7}:
+                v("fit_params_dropped", "fold %d: fit received fit_params %s, evaluate was given "
+                  "{'spy_marker': 7}" % (i, c_fit.get("fit_params")), fold="first" if i == 0 else "later")
+                return res
         # no-leak: nothing at or after the first test point before the prediction
         first_test = lab(y_test.index[0])
         for c in calls[:2 * i + 1]:
@@ -482,7 +498,7 @@ def execute_c08(scen):
     sc = sched.Scheduler(scen["sched"]["mode"], scen["sched"]["seed"], scen["sched"]["p"])
     try:
         with sched.scenario_schedule(sc), patched_evaluate_clock(clock):
-            out = tuner.fit(y)
+            out = tuner.fit(y, fh=scen.get("fit_fh"))
     except Exception as e:  # noqa
         res.sched = sc.stats()
         v("fit_raised", "tuner.fit raised %s: %s on a valid configuration" % (
@@ -634,7 +650,7 @@ def execute_c08(scen):
             # restore the first configuration and its results for the rest of the scenario
             with sched.scenario_schedule(sched.Scheduler("fifo", 0)), patched_evaluate_clock(SimClock(4)):
                 tuner.set_params(param_grid=scen["grid"])
-                tuner.fit(y)
+                tuner.fit(y, fh=scen.get("fit_fh"))
         except Exception as e:  # noqa
             v("fit_raised", "second tuner.fit raised %s: %s" % (type(e).__name__, str(e)[:200]),
               exc=type(e).__name__)
@@ -670,9 +686,42 @@ def execute_c08(scen):
     # lock-step: the tuner vs a forecaster constructed directly with the best parameters
     direct = clone(C.build(scen["base"])).set_params(**cands[bi])
     with peers.paused():
-        direct.fit(y)
+        direct.fit(y, fh=scen.get("fit_fh"))
     pos = 0
     fh = scen["cv"]["fh"]
+    if scen.get("fit_fh"):
+        # the horizon given to fit is the one a later predict() without arguments answers
+        try:
+            a, b = tuner.predict(), direct.predict()
+            res.probe("fit_horizon_remembered")
+            if not C.same_series(a, b):
+                v("tuner_differs_from_best_forecaster", "fit(y, fh=%s) then predict(): tuner gives "
+                  "%s, a forecaster built with best_params_ gives %s" % (
+                      scen["fit_fh"], C.fmt(a), C.fmt(b)), op="predict_remembered_fh")
+                res.digest = digest.hexdigest()[:16]
+                return res
+        except Exception as e:  # noqa
+            v("refit_history_raised", "predict() after fit(y, fh) raised %s: %s" % (
+                type(e).__name__, str(e)[:150]), op="predict_remembered_fh", exc=type(e).__name__)
+            return res
+    if scen["base"]["kind"] == "theta":
+        # prediction intervals at a non-default level are delegated with all their arguments
+        try:
+            a = tuner.predict(fh, return_pred_int=True, alpha=scen.get("alpha", 0.05))
+            b = direct.predict(fh, return_pred_int=True, alpha=scen.get("alpha", 0.05))
+            res.probe("prediction_intervals_checked")
+            if not (C.same_series(a[0], b[0]) and np.allclose(
+                    np.asarray(a[1], float), np.asarray(b[1], float), equal_nan=True)):
+                v("tuner_differs_from_best_forecaster", "predict(return_pred_int=True, alpha=%s): "
+                  "the tuner's intervals %s differ from the best forecaster's %s" % (
+                      scen.get("alpha"), np.round(np.asarray(a[1], float)[:2], 4).tolist(),
+                      np.round(np.asarray(b[1], float)[:2], 4).tolist()), op="predict_interval")
+                res.digest = digest.hexdigest()[:16]
+                return res
+        except Exception as e:  # noqa
+            v("refit_history_raised", "predict(return_pred_int=True) raised %s: %s" % (
+                type(e).__name__, str(e)[:150]), op="predict_interval", exc=type(e).__name__)
+            return res
     for k, op in enumerate(scen["history"]):
         try:
             if op == "predict":
